@@ -225,6 +225,12 @@ func leafDefs(name string) []*Def {
 		return []*Def{{Kind: "struct", Name: "Empty"}}
 	case "EmptyM":
 		return []*Def{{Kind: "message", Name: "EmptyM"}}
+	case "SM":
+		// a struct that contains a message: its wire size is not a function of its type
+		return []*Def{
+			{Kind: "message", Name: "SMm", Fields: []Field{{Name: "a", Type: prim("int32"), Index: 1}, {Name: "b", Type: prim("string"), Index: 2}}},
+			{Kind: "struct", Name: "SM", Fields: []Field{{Name: "m", Type: &Type{Kind: "rec", Name: "SMm"}}, {Name: "s", Type: prim("string")}}},
+		}
 	case "RO":
 		return []*Def{{Kind: "struct", Name: "RO", ReadOnly: true, Fields: []Field{{Name: "x", Type: prim("uint16")}, {Name: "s", Type: prim("string")}}}}
 	case "Msg":
@@ -242,7 +248,7 @@ func leafDefs(name string) []*Def {
 	panic("unknown leaf " + name)
 }
 
-var RecordLeaves = []string{"Fixed", "StrS", "Empty", "EmptyM", "RO", "Msg", "MsgD", "Uni", "RecM"}
+var RecordLeaves = []string{"Fixed", "StrS", "Empty", "EmptyM", "SM", "RO", "Msg", "MsgD", "Uni", "RecM"}
 
 type leaf struct {
 	name string
@@ -331,7 +337,7 @@ var MapKeyTypes = []string{"bool", "byte", "uint16", "int16", "int32", "uint64",
 // of shape-name substrings.
 func Shapes(tier string) []*Pkg { return ShapesProfile(tier, "full") }
 
-var liteLeaves = map[string]bool{"bool": true, "byte": true, "int32": true, "string": true, "guid": true, "date": true, "EUint16": true, "Fixed": true, "StrS": true, "Empty": true, "EmptyM": true, "Msg": true, "Uni": true, "RecM": true}
+var liteLeaves = map[string]bool{"bool": true, "byte": true, "int32": true, "string": true, "guid": true, "date": true, "EUint16": true, "Fixed": true, "StrS": true, "Empty": true, "EmptyM": true, "SM": true, "Msg": true, "Uni": true, "RecM": true}
 
 // ShapesProfile enumerates the corpus; profile "lite" (used in the quick tier
 // by the checks whose cost grows with the encoding length: cut points, fault
